@@ -152,6 +152,8 @@ def heads2():
         dict(src=X, val=["const", None], extra=["a", "y", "b"]),
         dict(src=["a", "x", "a"], val=["a", "x", "b"], extra=Y),
         dict(src=X, val=["ra", "x"], extra=Y),
+        dict(src=["a", "y", "a"], val=X, extra=Y),      # an expression over y BEFORE y itself
+        dict(src=["a", "x", "c"], val=["a", "y", "c"], extra=X),
     ]
 
 
@@ -169,7 +171,7 @@ def shapes(tier, seed):
                ["or", SX[0], SY[0]], None, SY[0], SX[1]]
     for h in heads2():
         for b in bodies2:
-            if tier == "thorough" or rnd.random() < 0.55:
+            if tier == "thorough" or b is None or b in (SY[0], SX[1]) or rnd.random() < 0.55:
                 out.append(dict(BASE2, head=h, cond=b))
         # the Add spelling is exercised only with bodies that bind every rule variable on every satisfied branch (an Add
         # conclusion takes one value per body solution; what an unbound variable means there is C12's business, not C11's)
@@ -190,7 +192,7 @@ def shapes(tier, seed):
     bodies1 = core[:5] + [["and", core[0], core[1]], ["or", core[0], core[2]], ["not", core[1]], None]
     for h in heads1():
         for b in bodies1:
-            if tier == "thorough" or rnd.random() < 0.6:
+            if tier == "thorough" or b is None or rnd.random() < 0.6:
                 out.append(dict(BASE1, head=h, cond=b))
         out.append(dict(BASE1, head=h, cond=core[0], spelling="add"))
         out.append(dict(BASE1, head=h, cond=core[0], twice=True))
